@@ -25,9 +25,10 @@ from .core import Sym, SymBool, toz
 
 
 class Claim:
-    __slots__ = ('name', 'expr', 'kind', 'core', 'meta', 'key')
+    __slots__ = ('name', 'expr', 'kind', 'core', 'meta', 'key', 'lemma')
 
     def __init__(self, name, expr, kind, core_=True, meta=None, key=None):
+        self.lemma = False
         self.name = name
         self.expr = expr
         self.kind = kind
@@ -183,6 +184,12 @@ class SymEnv(Env):
         """The path reached a state that violates the property outright."""
         self._add(name, z3.BoolVal(False), 'bool', core, {'why': why}, key)
 
+    def lemma(self, name, cond):
+        """An intermediate claim: proved like any other claim and, once proved, available as
+        a hypothesis to the claims that follow it on this path (sound lemma chaining)."""
+        self.holds(name, cond)
+        self.claims[-1].lemma = True
+
     def patch(self, modules, overrides=None, extra=None, sym_extra=None):
         """`extra`: stubs of the environment ((module, name) -> value) applied in both
         modes; `sym_extra`: replacements that only make sense symbolically (exact
@@ -251,6 +258,9 @@ class ReplayEnv(Env):
 
     def fail(self, name, why='', core=True, key=None):
         self._rec(name, False, {'why': why})
+
+    def lemma(self, name, cond):
+        self.holds(name, cond)
 
     @contextlib.contextmanager
     def patch(self, modules, overrides=None, extra=None, sym_extra=None):
@@ -404,6 +414,7 @@ def run_instance(body, params=None, label='', max_paths=256, max_depth=64,
             if r == 'unsat':
                 rec['vacuous_paths'] += 1
                 continue
+        hyps = []          # lemmas proved so far on this path
         for cl in env.claims:
             rec['claims'] += 1
             if z3.is_true(z3.simplify(cl.expr)):
@@ -411,7 +422,16 @@ def run_instance(body, params=None, label='', max_paths=256, max_depth=64,
                 core.STATS['queries'] += 1
                 core.STATS['unsat'] += 1
             else:
-                res, model = core.prove(p.pc, cl.expr, timeout_ms)
+                res = None
+                if p.pc_weak is not None:
+                    # abstraction ladder: first without the nonlinear defining equations
+                    r0, _m0 = core.prove(list(p.pc_weak) + hyps, cl.expr, min(timeout_ms or 60000, 20000))
+                    if r0 == 'unsat':
+                        res, model = 'unsat', None
+                if res is None:
+                    res, model = core.prove(list(p.pc) + hyps, cl.expr, timeout_ms)
+            if cl.lemma and res == 'unsat':
+                hyps.append(cl.expr)
             rec[res] += 1
             sk = cl.expr.sexpr() if len(seen) < 200000 else None
             if sk is not None and hash(sk) not in seen:
